@@ -148,12 +148,20 @@ type c16Pending struct {
 	at  monotime.Time
 }
 
+// c16GenBounds is the alphabet of one tier.
+type c16GenBounds struct {
+	capSeq  uint64 // Retire is offered while the highest issued sequence number is below this
+	maxT    int    // clock ticks while the connection is open
+	allSeq  bool   // Retire for every seq 0..highest+1 (else 0, 1, 2, highest, highest+1)
+	hcDelay int    // SetHandshakeComplete expiry variants now+1..now+hcDelay
+}
+
 type c16Gen struct {
-	cfg    c16GenCfg
-	g      *connIDGenerator
-	idgen  *c16IDGen
-	capSeq uint64
-	maxT   int
+	cfg   c16GenCfg
+	g     *connIDGenerator
+	idgen *c16IDGen
+	c16GenBounds
+	setmaxN int
 	tick   int
 	run    []*c16Runner
 	frames []*wire.NewConnectionIDFrame // queued in the current step
@@ -181,8 +189,8 @@ func (in *c16Gen) callbacks(r *c16Runner) connRunnerCallbacks {
 	}
 }
 
-func newC16Gen(cfg c16GenCfg, capSeq uint64, maxT int) *c16Gen {
-	in := &c16Gen{cfg: cfg, capSeq: capSeq, maxT: maxT, issued: map[uint64]protocol.ConnectionID{}, retired: map[uint64]bool{}}
+func newC16Gen(cfg c16GenCfg, b c16GenBounds) *c16Gen {
+	in := &c16Gen{cfg: cfg, c16GenBounds: b, issued: map[uint64]protocol.ConnectionID{}, retired: map[uint64]bool{}}
 	l := 4
 	if cfg.zero {
 		l = 0
@@ -233,14 +241,23 @@ func (in *c16Gen) Ops() []explore.Op {
 	}
 	ops = append(ops, explore.Op{N: "rm"})
 	if !in.hc {
-		ops = append(ops, explore.Op{N: "hc", A: 1}, explore.Op{N: "hc", A: 2})
+		for d := 1; d <= in.hcDelay; d++ {
+			ops = append(ops, explore.Op{N: "hc", A: d})
+		}
 	}
-	for l := max(in.limit, 2); l <= 8; l++ {
-		ops = append(ops, explore.Op{N: "setmax", A: l})
+	// the peer's limit arrives with its transport parameters: once, or twice (remembered
+	// 0-RTT parameters, then the handshake's, which must not be smaller)
+	if in.setmaxN < 2 {
+		for l := max(in.limit, 2); l <= 8; l++ {
+			ops = append(ops, explore.Op{N: "setmax", A: l})
+		}
 	}
 	h := in.highest()
 	if h < in.capSeq {
 		for s := uint64(0); s <= h+1; s++ {
+			if !in.allSeq && s > 2 && s < h {
+				continue
+			}
 			ops = append(ops, explore.Op{N: "retire", A: int(s), C: 1})
 			if s <= h {
 				ops = append(ops, explore.Op{N: "retire", A: int(s), C: 2}, explore.Op{N: "retire", A: int(s), B: 1, C: 1})
@@ -292,6 +309,7 @@ func (in *c16Gen) Apply(op explore.Op) *explore.Fail {
 	case "setmax":
 		err := g.SetMaxActiveConnIDs(uint64(op.A))
 		in.limit = op.A
+		in.setmaxN++
 		if err != nil {
 			in.phase = 2
 			in.outcome = "setmax:error"
@@ -465,7 +483,7 @@ func (in *c16Gen) Key() string {
 	sb.WriteString(canon.Dump(in.g, canon.Options{SkipField: func(typ, field string) bool {
 		return typ == "quic.connIDGenerator" && (field == "generator" || field == "connRunners" || field == "statelessResetter")
 	}}))
-	fmt.Fprintf(&sb, "|n=%d runners=%d t=%d lim=%d hc=%v ph=%d ca=%d|%s|", in.idgen.n, len(in.g.connRunners), in.tick, in.limit, in.hc, in.phase, in.closeAt, in.ledger())
+	fmt.Fprintf(&sb, "|n=%d runners=%d t=%d lim=%d/%d hc=%v ph=%d ca=%d|%s|", in.idgen.n, len(in.g.connRunners), in.tick, in.limit, in.setmaxN, in.hc, in.phase, in.closeAt, in.ledger())
 	for _, p := range in.pending {
 		fmt.Fprintf(&sb, "%s@%d,", p.cid, p.at)
 	}
@@ -477,23 +495,27 @@ func (in *c16Gen) Key() string {
 
 func c16GenPart(name string, cfg c16GenCfg) explore.Part {
 	return explore.BFSPart(name, func(e explore.Env) explore.BFSSpec {
-		capSeq, maxT, depth := uint64(7), 3, 7
+		b, depth := c16GenBounds{capSeq: 7, maxT: 2, hcDelay: 1}, 5
 		if e.Thorough() {
-			capSeq, maxT, depth = 9, 4, 9
+			b, depth = c16GenBounds{capSeq: 9, maxT: 3, hcDelay: 2, allSeq: true}, 7
 		}
 		if cfg.zero {
-			depth = 0
+			b.allSeq, b.hcDelay, depth = true, 2, 0
 		}
 		bound := fmt.Sprintf("depth %d", depth)
 		if depth == 0 {
 			bound = "closure"
 		}
+		seqs := "0, 1, 2, highest, highest+1"
+		if b.allSeq {
+			seqs = "0..highest+1"
+		}
 		return explore.BFSSpec{
-			New:              func() explore.Instance { return newC16Gen(cfg, capSeq, maxT) },
+			New:              func() explore.Instance { return newC16Gen(cfg, b) },
 			MaxDepth:         depth,
 			PanicIsViolation: true,
-			Rule: fmt.Sprintf("BFS (%s) over the real connIDGenerator (server=%v, zero-length=%v) with a harness connRunner and clock; alphabet: SetMaxActiveConnIDs(2..8, non-decreasing), Retire(seq 0..highest+1, sent with another / with the retired ID, expiry now+1|2 ticks) while highest < %d, SetHandshakeComplete(expiry now+1|2), tick (<= %d), RemoveRetiredConnIDs(now), AddConnRunner, close by peer / local / RemoveAll followed by the closing period (%d ticks)",
-				bound, cfg.server, cfg.zero, capSeq, maxT, c16ClosePeriod),
+			Rule: fmt.Sprintf("BFS (%s) over the real connIDGenerator (server=%v, zero-length=%v) with a harness connRunner and clock; alphabet: SetMaxActiveConnIDs(2..8; at most twice, non-decreasing), Retire(seq %s; sent with another / with the retired ID; expiry now+1|2 ticks) while highest < %d, SetHandshakeComplete(expiry now+1..%d), tick (<= %d), RemoveRetiredConnIDs(now), AddConnRunner, close by peer / local / RemoveAll followed by the closing period (%d ticks)",
+				bound, cfg.server, cfg.zero, seqs, b.capSeq, b.hcDelay, b.maxT, c16ClosePeriod),
 		}
 	})
 }
